@@ -998,7 +998,12 @@ def install(ip):
             return ArrayVal(code, lst)
         return ArrayVal(code, PList([], elty=elty))
     mod("array", array=BuiltinClass("array", (), array_ctor))
-    mod("json", loads=Opaque("json.loads"), dumps=Opaque("json.dumps"), JSONDecodeError=ip.exc_classes["JSONDecodeError"])
+    def _json_loads(ip, a, k):
+        h = getattr(ip, "json_loads_model", None)
+        if h is None:
+            raise Unsupported("json.loads without a model (declare json_model in the contract)")
+        return h(ip, a[0])
+    mod("json", loads=Builtin("json.loads", _json_loads), dumps=Opaque("json.dumps"), JSONDecodeError=ip.exc_classes["JSONDecodeError"])
     def _b64(name):
         def f(ip, a, k):
             v = a[0]
@@ -1021,6 +1026,9 @@ def install(ip):
 
     def _time(ip, a, k):
         ip.path.assumptions.add("A8: time() is real-valued and non-decreasing; float rounding ignored")
+        fz = getattr(ip.path, "frozen_time", None)
+        if fz is not None:
+            return fz
         t = ip.fresh("time", "real")
         last = getattr(ip.path, "last_time", None)
         if last is not None:
@@ -1153,6 +1161,7 @@ def install(ip):
         r = f(b.t)
         ip.path.assume(z3.Length(r) == 2 * z3.Length(b.t))
         ip.path.assume(g(r) == b.t)
+        ip.path.assume(ufun("valid_utf8", zu.BytesS, zu.BoolS)(r))      # hex digits are ASCII
         return Sym(r, "bytes")
 
     def _unhexlify(ip, a, k):
